@@ -20,7 +20,8 @@ JPs == {<<>>, <<L1>>, <<L2>>, <<L1, L2>>, <<L2, L1>>}
 Abs(p) == <<ROOT>> \o p
 Ups(loc) == [i \in 1..Len(loc) |-> ".."]
 
-Scen(f, pairs, jp, main) == [fam |-> f, fs |-> FnOf(BasePairs \cup pairs), jp |-> jp, main |-> main]
+BaseFs == FnOf(BasePairs)
+Scen(f, pairs, jp, main) == [fam |-> f, fs |-> FnOf(pairs) @@ BaseFs, jp |-> jp, main |-> main]
 Leaf(tag) == Code(tag, <<>>, <<>>, FALSE)
 AFiles(pres) == {<<loc \o <<A>>, Leaf(TagOf(loc))>> : loc \in pres}
 
@@ -55,6 +56,15 @@ SpecialPart(z) ==
       x \in Locs, s \in Specials, others \in BOOLEAN, jp \in JPs, w \in Importers,
       v \in {"plain", "dotdot", "abs"}, k \in Kinds}
 
+(* ---- laws: the trees on which the algebra of Resolve is checked --------- *)
+LawsPartA(z) ==
+  {Scen("laws", AFiles(pres) \cup Prog("main", <<Stmt("import", <<A>>, 0)>>), <<L1, L2>>, MainPath) :
+      pres \in SUBSET Locs}
+LawsPartB(z) ==
+  {Scen("laws", SpecialEntry(x, s) \cup AFiles(IF others THEN Locs \ {x} ELSE {})
+                \cup Prog("main", <<Stmt("import", <<A>>, 0)>>), <<L2, L1>>, MainPath) :
+      x \in Locs, s \in Specials, others \in BOOLEAN}
+
 (* ---- invoc: main file and -J given as absolute paths; odd -J lists ------ *)
 JPx == JPs \cup {<<<<"nodir">>, L1>>, <<L1, <<"nodir">>>>, <<L1, L1, L2>>}
 InvocPart(z) ==
@@ -77,16 +87,15 @@ PairSp == {<<A>>, <<".", A>>, <<"sub", "..", A>>, Abs(LMain \o <<A>>), <<"..", "
            <<"sub", "imp.libsonnet">>}
 TripleSp == {<<A>>, <<"sub", "..", A>>, <<"alias.libsonnet">>, <<"..", "Lk", A>>, <<"sub", "imp.libsonnet">>}
 PairKinds == {<<"import", "import">>, <<"str", "import">>, <<"import", "bin">>}
-PairsPart(z) ==
-  {Scen("pairs", PairFs(h) \cup {<<MainPath, Code(0, <<Stmt(ks[1], s1, 0), Stmt(ks[2], s2, 0)>>, <<>>, st)>>},
+PairsPartA(z) ==
+  {Scen("pairs", PairFs(h) \cup {<<MainPath, Code(0, <<Stmt(ks[1], s1, 0), Stmt(ks[2], s2, 0)>>, <<>>, FALSE)>>},
         jp, MainPath) :
-      h \in BOOLEAN, jp \in {<<>>, <<L1>>}, s1 \in PairSp, s2 \in PairSp,
-      ks \in PairKinds, st \in {FALSE}}
-  \cup
+      h \in BOOLEAN, jp \in {<<>>, <<L1>>}, s1 \in PairSp, s2 \in PairSp, ks \in PairKinds}
+PairsPartB(z) ==
   {Scen("pairs", PairFs(h) \cup {<<MainPath, Code(0, <<Stmt("import", s1, 0), Stmt("import", s2, 0)>>, <<>>, TRUE)>>},
         jp, MainPath) :
       h \in BOOLEAN, jp \in {<<>>, <<L1>>}, s1 \in PairSp, s2 \in PairSp}
-  \cup
+PairsPartC(z) ==
   {Scen("pairs", PairFs(h) \cup {<<MainPath, Code(0, <<Stmt("import", s1, 0), Stmt("import", s2, 0),
                                                       Stmt("import", s3, 0)>>, <<>>, FALSE)>>},
         <<L1>>, MainPath) :
@@ -142,16 +151,18 @@ ContentPart(z) ==
                     <<MainPath, Code(0, <<Stmt("str", <<"d.bin">>, 0), Stmt("bin", <<"d.bin">>, 0)>>, <<>>, FALSE)>>},
         <<>>, MainPath) : b \in ByteSeqs(z)}
 
-Part(m) ==
+NSub(m) == CASE m = "laws" -> 2 [] m = "pairs" -> 3 [] m = "cycles" -> 2 [] OTHER -> 1
+Part(m, i) ==
   CASE m = "search" -> SearchPart(m)
     [] m = "special" -> SpecialPart(m)
     [] m = "invoc" -> InvocPart(m)
-    [] m = "pairs" -> PairsPart(m)
-    [] m = "cycles" -> {s \in CyclesPart(m) : CyclesOk(s)} \cup SelfPart(m)
+    [] m = "laws" -> IF i = 1 THEN LawsPartA(m) ELSE LawsPartB(m)
+    [] m = "pairs" -> IF i = 1 THEN PairsPartA(m) ELSE IF i = 2 THEN PairsPartB(m) ELSE PairsPartC(m)
+    [] m = "cycles" -> IF i = 1 THEN {s \in CyclesPart(m) : CyclesOk(s)} ELSE SelfPart(m)
     [] m = "data" -> DataPart(m)
     [] m = "content" -> ContentPart(m)
 
-Init == \E m \in Parts : \E s \in Part(m) : InitScenario(s)
+Init == \E m \in Parts : \E i \in 1..NSub(m) : \E s \in Part(m, i) : InitScenario(s)
 Next == Step
 Spec == Init /\ [][Next]_vars
 
@@ -166,12 +177,17 @@ CaseRec ==
 
 Emit == (status # "run") => PrintT(<<"CASE", ToJson(CaseRec)>>)
 
-(* Laws of the reference operators, evaluated once per scenario             *)
-AllStmts == UNION {{fs[n].eager[i] : i \in 1..Len(fs[n].eager)} \cup {fs[n].lazy[i] : i \in 1..Len(fs[n].lazy)} :
-                   n \in CodeNodes(fs)}
+(* Laws of the reference operators.  The algebra of Resolve is checked on   *)
+(* the trees of the "laws" family for every importer directory, -J list and *)
+(* spelling of the universe; the UTF-8 laws on every data file of every     *)
+(* scenario.  (Evaluated in the second state of a behaviour so that TLC's   *)
+(* workers share the work.)                                                 *)
+LawDirs == {LMain, LSub, <<"main", "..", "L1">>, Abs(L1)}
+LawJs == JPs \cup {<<<<"nodir">>, Abs(L1)>>}
+LawSps == SpRel \cup SpAbs \cup {<<"..", "main", A>>}
 Laws ==
-  (TLCGet("level") = 1) =>
-     /\ LawResolve(fs, {LMain, LSub, L1, <<"main", "..", "L1">>}, JPs \cup {jpaths}, {s.sp : s \in AllStmts})
+  (TLCGet("level") = 2) =>
+     /\ (fam = "laws") => LawResolve(fs, LawDirs, LawJs, {L1, L2}, LawSps)
      /\ \A n \in DOMAIN fs : (fs[n].t = "file" /\ ~fs[n].code) =>
             /\ LawLossy(fs[n].bytes)
             /\ ImportBinOf(fs, n).data = fs[n].bytes
